@@ -1,111 +1,7 @@
-//! vcheck <Cxx> [--tier quick|thorough] [--replay <file>]
-//! exit 0: property held on everything explored; 1: violation (VIOLATION line printed);
-//! 2: infrastructure failure / inconclusive.
-use vcore::evidence::{env_seed, Tier};
-use vcore::findings::Findings;
-
+//! vcheck <Cxx> [--tier quick|thorough] [--replay <file>]  (see lib.rs)
 #[global_allocator]
 static ALLOC: vrt::alloc::Counting = vrt::alloc::Counting;
 
-mod c01;
-mod c03;
-mod c04;
-mod c07;
-mod c09;
-mod c11;
-mod c12;
-mod c14;
-mod c15;
-mod c16;
-mod c17;
-mod common;
-mod genpipe;
-
-pub struct Ctx {
-    pub tier: Tier,
-    pub seed: u64,
-    pub findings: Findings,
-    pub replay: Option<serde_json::Value>,
-    pub replay_path: Option<String>,
-    pub args: Vec<String>,
-}
-
 fn main() {
-    let args: Vec<String> = std::env::args().collect();
-    if args.len() < 2 {
-        eprintln!("usage: vcheck <Cxx> [--tier quick|thorough] [--replay file]");
-        std::process::exit(2);
-    }
-    let id = args[1].clone();
-    let mut tier = match std::env::var("VERIF_TIER").as_deref() {
-        Ok("thorough") => Tier::Thorough,
-        _ => Tier::Quick,
-    };
-    let mut replay = None;
-    let mut replay_path = None;
-    let mut i = 2;
-    let mut rest = vec![];
-    while i < args.len() {
-        match args[i].as_str() {
-            "--tier" => {
-                i += 1;
-                tier = if args.get(i).map(|s| s.as_str()) == Some("thorough") {
-                    Tier::Thorough
-                } else {
-                    Tier::Quick
-                };
-            }
-            "--replay" => {
-                i += 1;
-                let p = args.get(i).expect("--replay needs a path");
-                let text = std::fs::read_to_string(p).expect("read replay file");
-                replay = Some(serde_json::from_str(&text).expect("parse replay file"));
-                replay_path = Some(p.clone());
-            }
-            o => rest.push(o.to_string()),
-        }
-        i += 1;
-    }
-    let ctx = Ctx {
-        tier,
-        seed: env_seed(),
-        findings: Findings::load(),
-        replay,
-        replay_path,
-        args: rest,
-    };
-    // replays of cases found by the generated-type part go to the generated-code binary
-    if let Some(rp) = &ctx.replay {
-        let sub = rp["sub"].as_str().unwrap_or("");
-        if ["roundtrip", "generated-total", "generated-async", "generated-unchecked", "leak", "default"].contains(&sub) && ["C04", "C09", "C11", "C12"].contains(&id.as_str()) {
-            std::process::exit(genpipe::run_gent_check(&ctx, &id));
-        }
-    }
-    let code = match id.as_str() {
-        "C01" => c01::run(&ctx),
-        "C02" => genpipe::run_gent_check(&ctx, "C02"),
-        "C08" => genpipe::run_gent_check(&ctx, "C08"),
-        "C13" => genpipe::run_gent_check(&ctx, "C13"),
-        "C05" => genpipe::run_multi(&ctx, "C05", &["gentp", "gentpd"]),
-        "C06" => genpipe::run_multi(&ctx, "C06", &["gentp"]),
-        "C10" => genpipe::run_multi(&ctx, "C10", &["gentp"]),
-        "C18" => genpipe::run_multi(&ctx, "C18", &["gentp"]),
-        "C19" => genpipe::run_multi(&ctx, "C19", &["gent", "gentp"]),
-        "C20" => genpipe::run_gent_check(&ctx, "C20"),
-        "C03" => c03::run(&ctx),
-        "C04" => c04::run(&ctx),
-        "C07" => c07::run(&ctx),
-        "C09" => c09::run(&ctx),
-        "C11" => c11::run(&ctx),
-        "C12" => c12::run(&ctx),
-        "C14" => c14::run(&ctx),
-        "C15" => c15::run(&ctx),
-        "C16" => c16::run(&ctx),
-        "C17" => c17::run(&ctx),
-        _ => {
-            eprintln!("unknown check {}", id);
-            2
-        }
-    };
-    std::process::exit(code);
+    vcheck::main_entry()
 }
